@@ -894,12 +894,27 @@ func (t *Term) Body() string {
 	return sb.String()
 }
 
-// String renders the full expression (for evidence samples and debugging).
-func (t *Term) String() string {
-	if s := t.atomString(); s != "" {
-		return s
-	}
+// String renders the expression, truncated (terms are DAGs; a full tree print can be
+// exponentially large).
+func (t *Term) String() string { return t.StringN(4000) }
+
+func (t *Term) StringN(limit int) string {
 	var sb strings.Builder
+	t.write(&sb, limit)
+	if sb.Len() > limit {
+		return sb.String()[:limit] + "..."
+	}
+	return sb.String()
+}
+
+func (t *Term) write(sb *strings.Builder, limit int) {
+	if sb.Len() > limit {
+		return
+	}
+	if s := t.atomString(); s != "" {
+		sb.WriteString(s)
+		return
+	}
 	sb.WriteByte('(')
 	if t.Op == "app" {
 		sb.WriteString(t.Name)
@@ -908,10 +923,12 @@ func (t *Term) String() string {
 	}
 	for _, a := range t.Args {
 		sb.WriteByte(' ')
-		sb.WriteString(a.String())
+		a.write(sb, limit)
+		if sb.Len() > limit {
+			return
+		}
 	}
 	sb.WriteByte(')')
-	return sb.String()
 }
 
 // SortedUFs returns declared UFs in name order (deterministic output).
